@@ -14,6 +14,8 @@ type Edit struct {
 	File string `json:"file"`
 	Old  string `json:"old"`
 	New  string `json:"new"`
+	// All replaces every occurrence (used for behaviour-preserving renames).
+	All bool `json:"all,omitempty"`
 }
 
 func loadOverlay(path, repo string) (map[string][]byte, error) {
@@ -38,7 +40,15 @@ func loadOverlay(path, repo string) (map[string][]byte, error) {
 			}
 		}
 		s := string(src)
-		if n := strings.Count(s, e.Old); n != 1 {
+		n := strings.Count(s, e.Old)
+		if e.All {
+			if n == 0 {
+				return nil, fmt.Errorf("NOT-APPLICABLE: edit of %s matches %d times", e.File, n)
+			}
+			out[abs] = []byte(strings.ReplaceAll(s, e.Old, e.New))
+			continue
+		}
+		if n != 1 {
 			return nil, fmt.Errorf("NOT-APPLICABLE: edit of %s matches %d times", e.File, n)
 		}
 		out[abs] = []byte(strings.Replace(s, e.Old, e.New, 1))
